@@ -281,6 +281,13 @@ class C04(Property):
                        [["w", [200]], ["rcflush"], ["chk"], ["w", [201]]]):
             res.append(dict(self._rest(script, own, "stall", 0, fl=True), paths_done=True))
         res.append(dict(self._rest([["w", [200]], ["flush"], ["panic", 2]], [], "stall", 0, fl=True, rec=True), paths_done=True))
+        # Flush commits the header (status 200 unless one was recorded): a later invalid code is ignored like any
+        # later WriteHeader, it does not panic (mutation sweep m013 / m014: Flush no longer marks wroteHeader)
+        for code in (0, 999):
+            for rec in (False, True):
+                res.append(dict(self._rest([["flush"], ["wh", code], ["w", [200]]], own, "none", 0, fl=True, rec=rec), paths_done=True))
+                res.append(dict(self._rest([["w", [200]], ["flush"], ["wh", code]], [], "cancel", 3, fl=True, rec=rec), paths_done=True))
+            res.append(dict(self._rest([["flush"], ["wh", code]], [], "none", 0, fl=False), paths_done=True))   # no Flusher: it panics
         return res
 
     def _corpus_headers(self):
@@ -1381,6 +1388,13 @@ class C04(Property):
             cz(o["read_ns"]), cz(o["write_ns"]), cz(o["eng_ns"]))
 
     def _coq_sseq(self, c, o):
+        if o.get("leak"):
+            # a wrapper goroutine parked for ever in a channel send after its abandoned work ended: in the model
+            # the work's last action completes (its result goes into a buffered slot nobody reads); reported as a
+            # handler event the model has not got (a disagreement; the property text does not speak of leaks)
+            o = dict(o)
+            o["sched"] = list(o["sched"]) + [[0, "H"]]
+            o["hobs"] = list(o["hobs"]) + [[0, "werr"]]
         dk = {}
         for e in c["order"]:
             if e[0] in ("D", "T") and e[1] not in dk:
@@ -1406,6 +1420,10 @@ class C04(Property):
                                                     clist(cs), sched, hobs, cz(o["ret_at_d"]))
 
     def _coq_slot(self, c, o):
+        if o.get("leak"):
+            o = dict(o)             # see _coq_sseq
+            o["sched"] = list(o["sched"]) + ["H"]
+            o["hobs"] = list(o["hobs"]) + [["werr"]]
         fin = c["fin"]
         wfin = "(WRet %s %s)" % (cz(fin[1]), cz(fin[2])) if fin[0] == "ret" else "(WPanic %s)" % cz(fin[1])
         script = "(mkW %s (%s, %s) %s)" % (clist(["WCheck" if x == "chk" else "WWork" for x in c["steps"]]),
@@ -1538,6 +1556,8 @@ class C04(Property):
                 fs.append("recover:panic_recovered=" + case["kind"])
         if obs.get("hung"):
             fs.append("hung=" + case["kind"])
+        if obs.get("leak"):
+            fs.append("leak=" + case["kind"])
         if case["kind"] == "rest":
             fs.append("rest:mode=" + case["d"]["mode"])
             fs.append("rest:req=" + case["req"])
